@@ -124,7 +124,10 @@ class P(Prop):
                     fl.append(fl[i_])
                 else:
                     ops.append(["query", rng.choice(uniform), rng.choice(["total", "fractions", "emissions"])])
-            out.append({"series": series, "n": n, "recs": recs, "ops": ops, "share_objects": rng.random() < 0.4, "forms": forms, "live_forms": fl})
+            out.append({"series": series, "n": n, "recs": recs, "ops": ops, "share_objects": rng.random() < 0.4, "forms": forms, "live_forms": fl,
+                        "zero_dim_arrays": (not series) and rng.random() < 0.4,      # only where every mass is a scalar
+                        # `total += record` (an accumulation loop) instead of `total = total + record` for the add operations
+                        "in_place_add": rng.random() < 0.3})
         return out
 
     @staticmethod
@@ -148,6 +151,8 @@ class P(Prop):
             made = {}      # share_objects: entries with the same kind and masses are ONE Fuel object listed several times
             for k, ms in ents:
                 mass = np.array([float(x) for x in ms]) if form == "series" else float(ms[0])
+                if form != "series" and case.get("zero_dim_arrays"):
+                    mass = np.array(float(ms[0]))          # a scalar mass handed over as a 0-d array (what np.sum etc. return)
                 key = (tuple(k), tuple(ms))
                 if case.get("share_objects") and key in made:
                     fuels.append(made[key])
@@ -160,7 +165,12 @@ class P(Prop):
             for o in case["ops"]:
                 q = None
                 if o[0] == "add":
-                    env.append(env[o[1]] + env[o[2]])
+                    if case.get("in_place_add"):
+                        acc = env[o[1]]
+                        acc += env[o[2]]              # no in-place addition is defined: Python evaluates acc = acc + other
+                        env.append(acc)
+                    else:
+                        env.append(env[o[1]] + env[o[2]])
                 elif o[0] == "scale":
                     k = np.array([float(x) for x in o[2]]) if (series and len(set(o[2])) > 1) else float(o[2][0])
                     env.append(env[o[1]] * k)
@@ -262,6 +272,10 @@ class P(Prop):
             t.append("one-Fuel-object-listed-twice-in-a-record")
         if len({k[2] for r in case["recs"] for k, _ in r}) > 1:
             t.append("mixed-specifications")
+        if case.get("zero_dim_arrays") and "scalar" in (case.get("forms") or []):
+            t.append("scalar-masses-as-0-d-arrays")
+        if case.get("in_place_add") and any(o[0] == "add" for o in case["ops"]):
+            t.append("accumulation-with-+=")
         if case["series"] and "scalar" in (case.get("forms") or []):
             t.append("scalar-record-among-series-records")
         if any(o[0] == "scale" and all(x == 0 for x in o[2]) for o in case["ops"]):
